@@ -225,6 +225,9 @@ static void load_and_check(CWorld &w, const LoadFaults &lf, const std::string &c
 		    {
 			LibCall lc(c);
 			v2 = vnadata_alloc(sim_error_fn, nullptr);
+			// first as loaded (format, precisions and all that the file set): whether this succeeds is not judged, that it returns is
+			(void)vnadata_save(v, "asloaded.npd");
+			g_sim.callbacks.clear();
 			vnadata_set_filetype(v, VNADATA_FILETYPE_NPD);
 			vnadata_set_format(v, nullptr);
 			vnadata_set_dprecision(v, VNADATA_MAX_PRECISION);
@@ -384,6 +387,15 @@ static void run_op(CWorld &w, const Op &op)
 	for (int q = 0; q < nf && !d.empty(); ++q) {
 	    int kind = (int)r.below(15);
 	    size_t pos = (size_t)r.below((long)d.size());
+	    // number and keyword damage lands on a header line (keyword lines of NPD / Touchstone 2, the first lines of a
+	    // calibration file) half of the time: that is where a few numbers steer everything that follows
+	    if ((kind == 8 || kind == 11 || kind == 12) && r.chance(0.5)) {
+		std::vector<size_t> heads;
+		size_t line = 0;
+		for (size_t b = 0; b < d.size(); b = d.find('\n', b) == std::string::npos ? d.size() : d.find('\n', b) + 1, ++line)
+		    if (d[b] == '#' || d[b] == '[' || d[b] == '!' || line < 12) heads.push_back(b);
+		if (!heads.empty()) pos = heads[(size_t)r.below((long)heads.size())];
+	    }
 	    switch (kind) {
 	    case 0: d[pos] ^= (char)(1 << r.below(8)); what += strf("bitflip@%zu ", pos); break;
 	    case 1: d.insert(pos, 1, (char)r.below(256)); what += strf("insert@%zu ", pos); break;
@@ -401,7 +413,7 @@ static void run_op(CWorld &w, const Op &op)
 		break; }
 	    case 8: {	// perturb a number
 		size_t b = pos; while (b < d.size() && !isdigit((unsigned char)d[b])) ++b;
-		if (b < d.size()) { static const char *rep[] = {"0", "-1", "99999999999", "1e999", "-1e-999", "nan", "inf", "0x1p+0", "1.5", ""}; size_t e2 = b; while (e2 < d.size() && (isdigit((unsigned char)d[e2]) || d[e2] == '.')) ++e2; d.replace(b, e2 - b, rep[r.below(10)]); what += strf("number@%zu ", b); }
+		if (b < d.size()) { static const char *rep[] = {"0", "-1", "99999999999", "1e999", "-1e-999", "nan", "inf", "0x1p+0", "1.5", "", "2147483647", "2000000000", "1001", "65536", "7000", "-7000", "1e308", "1e-320"}; size_t e2 = b; while (e2 < d.size() && (isdigit((unsigned char)d[e2]) || d[e2] == '.')) ++e2; d.replace(b, e2 - b, rep[r.below(18)]); what += strf("number@%zu ", b); }
 		break; }
 	    case 10: {	// YAML node-type substitution / value replacement after a ':' (or after "- ")
 		size_t b = d.find_first_of(":-", pos);
